@@ -56,6 +56,20 @@ N = [
       (COL, "format_color", "_render_as"), (COL, "detect_color_format", "_detect_format")]),
     ("renamed-report-helpers", ["C08", "C17", "C19"],
      [(VIS, "def to_html(", "def _card_html("), (VIS, "cards_html += to_html(", "cards_html += _card_html(")]),
+    ("atomic-output-write", ["C08", "C09", "C18"],
+     [(MAIN, "            with open(output_path, \"w\", encoding=\"utf-8\") as f:\n                f.write(tinycss2.serialize(rules))",
+       "            text_out = tinycss2.serialize(rules)\n            tmp_path = output_path.with_name(output_path.name + \".tmp\")\n"
+       "            try:\n                with open(tmp_path, \"w\", encoding=\"utf-8\") as f:\n                    f.write(text_out)\n"
+       "                import os as _os\n                _os.replace(tmp_path, output_path)\n"
+       "            finally:\n                if tmp_path.exists():\n                    tmp_path.unlink()")]),
+    ("lab-memo-keyed-on-tuple", ["C03", "C04", "C11"],
+     [(CONV, "def rgb_to_lab(rgb: Tuple[int, int, int]) -> Tuple[float, float, float]:\n    \"\"\"Convert RGB directly to LAB\"\"\"\n    xyz = rgb_to_xyz(rgb)\n    return xyz_to_lab(xyz)",
+       "_LAB_MEMO = {}\n\n\ndef rgb_to_lab(rgb: Tuple[int, int, int]) -> Tuple[float, float, float]:\n    \"\"\"Convert RGB directly to LAB\"\"\"\n"
+       "    key = (type(rgb[0]), type(rgb[1]), type(rgb[2]), tuple(rgb))\n    if key not in _LAB_MEMO:\n        if len(_LAB_MEMO) > 100000:\n            _LAB_MEMO.clear()\n"
+       "        _LAB_MEMO[key] = xyz_to_lab(rgb_to_xyz(rgb))\n    return _LAB_MEMO[key]")]),
+    ("atomic-report-write", ["C17", "C19", "C12"],
+     [(VIS, "    with open(output_path, \"w\", encoding=\"utf-8\") as f:\n        f.write(html_content)",
+       "    tmp_path = str(output_path) + \".part\"\n    with open(tmp_path, \"w\", encoding=\"utf-8\") as f:\n        f.write(html_content)\n    os.replace(tmp_path, output_path)")]),
     ("hue-via-math-degrees", ["C03", "C04", "C10", "C11"],
      [(CONV, "    hue = math.atan2(b, a) * 180 / math.pi\n    return hue + 360 if hue < 0 else hue", "    hue = math.degrees(math.atan2(b, a))\n    return hue + 360.0 if hue < 0 else hue")]),
 ]
